@@ -433,7 +433,16 @@ def unit_levels(U):
             r.replay = replay_deep()
 
 
-UNITS = [("delete", unit_delete), ("add_relation", unit_add_relation), ("update", unit_update), ("levels", unit_levels)]
+def unit_bounded_delete_then_merge(U):
+    """bounded history: create g1 <- m1 <- e1; delete(g1); update([m1 without Parent], merge_strategy='merge'): the deleted
+    parent's link does not come back and the newcomer is not rewritten (shared with C05)"""
+    from props import C05
+    r = C05.native_delete_then_merge()
+    U.bounded_result("C10.bounded.delete_then_merge", "after delete(parent) a merging update of the child re-creates no relation to the deleted parent",
+                     "one history on a file database", 1, [] if not r.get("violates") else [{"case": r.get("inputs"), "expected": r.get("expected"), "observed": r.get("observed")}], distinct=1)
+
+
+UNITS = [("bounded.delete_then_merge", unit_bounded_delete_then_merge), ("delete", unit_delete), ("add_relation", unit_add_relation), ("update", unit_update), ("levels", unit_levels)]
 try:
     from standins import C10 as _S
     UNITS = UNITS + list(_S.UNITS)
